@@ -5,7 +5,8 @@ CONTRACT_MODULES = ['ppoly']
 LEVEL = 'proof'
 TRUSTED = ['int -> double conversion is exact and strictly monotone for 32-bit ints (axioms i2r_*); std::floor followed by conversion to int gives k with k <= x < k+1']
 ASSUMPTIONS = ['dt > 0, end >= start, (end-start)/dt < 2^24 (the conversion of floor() to int is undefined beyond int range)']
-UNDECIDED_CLAUSES = ['arc-length error bound (step times integral of the acceleration norm) and convergence: real analysis, not an algebraic identity',
+UNDECIDED_CLAUSES = ['value of the left-endpoint Riemann sum in getTrajectoryLength: the three-argument form is under contract for its frame, the call preconditions of every sample and non-negativity of every partial sum, but the sum itself is not stated (its summand reads the local time sequence; the requires-side prefix-sum definitions cannot mention a local)',
+                     'arc-length error bound (step times integral of the acceleration norm) and convergence: real analysis, not an algebraic identity',
                      'behaviour of floor(duration/dt) under floating-point rounding when dt nearly divides the interval']
 OPT = {'i2r': True}
 
@@ -17,6 +18,8 @@ def tasks(tier):
         base = Task('a', 'b', cfg=cfg).label
         T.append(Task('PPolyND', 'generateTimeSequence', 3, cfg, options=OPT, label=base + ',interval'))
         T.append(Task('PPolyND', 'generateTimeSequence', 1, cfg, options=OPT, label=base + ',whole'))
+        for nc in (4,) if tier == 'quick' else (2, 4, 6):
+            T.append(Task('PPolyND', 'getTrajectoryLength', 3, cfg, options=OPT, pins={'num_coeffs_': nc}, label=Task('a', 'b', cfg=cfg, pins={'num_coeffs_': nc}).label + ',length'))
         for ncf in (1, 3):
             T.append(Task('PPolyND', 'zero', 2, cfg, pins={'p_num_coefficients': ncf}))
         T.append(Task('PPolyND', 'constant', 2, cfg))
